@@ -334,6 +334,15 @@ def opsC13 : List (String × Handler) := [
       | some p => selectMoving ⟨true, true, false, true, true⟩ (stratOf st) p rest
       | none => "bad-op"
     | _ => "bad-op"),
+  -- pool start-up: members and initial best connection after the connections have arrived in the given order
+  ("pool.start", fun
+    | [arr] => match (arr.splitOn ".").mapM String.toNat? with
+      | some a =>
+        let (ids, best) := Tongo.PoolSM.startPool a
+        let b : Int := match best with | none => -1 | some c => c
+        "ok " ++ ".".intercalate (ids.map toString) ++ s!" best={b}"
+      | none => "bad-op"
+    | _ => "bad-op"),
   ("wait.script", fun a => match scenOf a with
     | some sc => runScen Tongo.PoolSM.fixed sc
     | none => "bad-op"),
